@@ -256,6 +256,12 @@ inline void install_death_hooks() {
   sa.sa_flags = SA_ONSTACK;
   sigaction(SIGSEGV, &sa, nullptr);
   signal(SIGABRT, on_signal);
+  signal(SIGALRM, [](int) {   // per-case watchdog: a single case that runs for 60 s does not terminate
+    static const char m[] = "VF-WATCHDOG: case did not finish within 60 s\n";
+    ssize_t r = write(2, m, sizeof m - 1); (void)r;
+    death_dump();
+    _exit(88);
+  });
   signal(SIGBUS, on_signal);
   signal(SIGFPE, on_signal);
   signal(SIGILL, on_signal);
@@ -314,7 +320,9 @@ inline std::string strover(const std::string &alphabet, int lo, int hi) {
       if (r.fail) { fprintf(stderr, "unreadable case file %s\n", casefile.c_str()); return 3; }           \
       g.current_case = ss.str();                                                                         \
       g.ctx.begin_case();                                                                                \
+      alarm(60);                                                                                         \
       std::string msg = vf_run(c, g.ctx);                                                                \
+      alarm(0);                                                                                          \
       if (msg.empty()) { printf("CASE-PASS %s\n", casefile.c_str()); return 0; }                         \
       printf("CASE-FAIL %s: %s\n", casefile.c_str(), msg.c_str());                                       \
       return 1;                                                                                          \
@@ -330,7 +338,9 @@ inline std::string strover(const std::string &alphabet, int lo, int hi) {
       CaseT c = vf_generate();                                                                           \
       g.current_case = serialize(c, vf_property());                                                      \
       g.ctx.begin_case();                                                                                \
+      alarm(60);                                                                                         \
       std::string msg = vf_run(c, g.ctx);                                                                \
+      alarm(0);                                                                                          \
       if (!msg.empty()) {                                                                                \
         g.failures_seen++;                                                                               \
         g.last_failure_msg = msg;                                                                        \
